@@ -20,7 +20,17 @@ package main
 //   - a call through a function-typed struct field fans out to every value assigned to that field
 //     anywhere in the analysed packages — including, when the field is assigned from a parameter of an
 //     option constructor (ListsMergeFunc(fn)), every named function the analysed packages pass to that
-//     constructor (ListsMergeAppend passes mergeListsAppend); any other dynamic call is conservative.
+//     constructor (ListsMergeAppend passes mergeListsAppend);
+//   - a call of a function value that can be enumerated syntactically (effects_fnvals.go) — a function literal, a
+//     named function, the result of a package function that returns such values, a local variable only ever
+//     assigned such values, an element of an unexported package-level variable with an enumerable initializer
+//     that no file of the package assigns, appends to, stores into or takes the address of (effects_pkgvars.go)
+//     — fans out to the enumerated functions; function literals are table entries of their own (`encl$N`;
+//     variables they capture are memory their caller knows nothing about: the unknown global);
+//   - a call of a function-typed value that came in through a parameter and whose type mentions an unexported
+//     type of the analysed packages (dom.MergeOption = func(*merger)) can only be a function the analysed
+//     packages themselves define: it fans out to every function literal / function of that type;
+//   - any other dynamic call is conservative.
 
 import (
 	"fmt"
@@ -53,6 +63,10 @@ var effReadAPI = [][2]string{
 	{"OverlayDocument", "Merged"}, {"OverlayDocument", "Layers"}, {"OverlayDocument", "LayerNames"},
 	{"OverlayDocument", "Walk"}, {"OverlayDocument", "Serialize"},
 }
+
+// methods outside the read interfaces that must not write either: ContainerBuilder.Merge builds a new container
+// from its receiver and its argument (DESIGN §6 C20 exercises it next to OverlayDocument.Merged)
+var effAuxAPI = [][2]string{{"ContainerBuilder", "Merge"}}
 
 // read-only entry points of other packages, by full name
 var effReadExtra = []string{"diff.Diff", "patch.(Path).Eval"}
@@ -105,7 +119,7 @@ func (s eset) addAll(t eset) bool {
 }
 
 type effEdge struct {
-	callee *types.Func
+	callee *effFn
 	lv     [][3]eset // per callee slot: what depth 0 / 1 / >=2 of the callee's parameter object is in the caller
 }
 
@@ -117,8 +131,10 @@ type effSummary struct {
 
 type effFn struct {
 	name   string
-	fn     *types.Func
-	decl   *ast.FuncDecl
+	fn     *types.Func  // nil for a function literal
+	lit    *ast.FuncLit // a function literal analysed as a function of its own (callee of resolved dynamic calls)
+	body   *ast.BlockStmt
+	ftype  *ast.FuncType
 	info   *types.Info
 	pkg    *types.Package
 	slots  []*types.Var // receiver first (nil when there is none)
@@ -126,6 +142,7 @@ type effFn struct {
 	edges  map[string]*effEdge
 	cbs    map[string]bool // callbacks called: "slot:N"
 	dyn    map[string]bool // conservative dynamic / external calls (informational)
+	res    map[string]bool // dynamic calls resolved to enumerated functions (informational)
 	sum    effSummary
 }
 
@@ -139,6 +156,11 @@ type effWorld struct {
 	fieldFns map[*types.Var][]effFieldV // func-typed struct field -> assigned values
 	setters  []effSetter                // func-typed field assigned from a parameter of a function (an option constructor)
 	pkgs     map[string]*types.Package
+	lits     map[*ast.FuncLit]*effFn // every function literal of the analysed packages
+	pkgVars  map[*types.Var]*effPkgVar
+	varOrder []*effPkgVar
+	params   map[*effFn]map[*types.Var]bool
+	mvalSigs []types.Type // types of method values / method expressions used as values (not called) somewhere
 }
 
 type effFieldV struct {
@@ -220,7 +242,8 @@ func genEffects(repo string) (string, error) {
 	}
 	defer os.Chdir(cwd)
 	w := &effWorld{fset: token.NewFileSet(), fns: map[*types.Func]*effFn{}, globals: map[*types.Var]int{},
-		fieldFns: map[*types.Var][]effFieldV{}, pkgs: map[string]*types.Package{}}
+		fieldFns: map[*types.Var][]effFieldV{}, pkgs: map[string]*types.Package{}, lits: map[*ast.FuncLit]*effFn{},
+		pkgVars: map[*types.Var]*effPkgVar{}, params: map[*effFn]map[*types.Var]bool{}}
 	w.gnames = append(w.gnames, effUnknownGlobal) // global 0: anything an un-analysed callee may write
 	base := importer.ForCompiler(w.fset, "source", nil).(types.ImporterFrom)
 	type pkgData struct {
@@ -246,7 +269,8 @@ func genEffects(repo string) (string, error) {
 			}
 		}
 		info := &types.Info{Types: map[ast.Expr]types.TypeAndValue{}, Uses: map[*ast.Ident]types.Object{}, Defs: map[*ast.Ident]types.Object{},
-			Selections: map[*ast.SelectorExpr]*types.Selection{}, Implicits: map[ast.Node]types.Object{}}
+			Selections: map[*ast.SelectorExpr]*types.Selection{}, Implicits: map[ast.Node]types.Object{},
+			Instances: map[*ast.Ident]types.Instance{}}
 		var terr error
 		conf := types.Config{Importer: effImporter{w, base}, Error: func(err error) {
 			if terr == nil {
@@ -275,7 +299,7 @@ func genEffects(repo string) (string, error) {
 					continue
 				}
 				fn := pd.info.Defs[fd.Name].(*types.Func)
-				ef := &effFn{name: effFullName(fn), fn: fn, decl: fd, info: pd.info, pkg: pd.pkg}
+				ef := &effFn{name: effFullName(fn), fn: fn, body: fd.Body, ftype: fd.Type, info: pd.info, pkg: pd.pkg}
 				sig := fn.Type().(*types.Signature)
 				ef.slots = append(ef.slots, sig.Recv())
 				for i := 0; i < sig.Params().Len(); i++ {
@@ -286,6 +310,22 @@ func genEffects(repo string) (string, error) {
 				w.order = append(w.order, ef)
 			}
 		}
+	}
+	// function literals: table entries of their own, named after the enclosing declaration
+	for _, pd := range pds {
+		for _, f := range pd.files {
+			for _, d := range f.Decls {
+				w.collectLits(d, pd.info, pd.pkg)
+			}
+		}
+	}
+	// package-level variables: declaration, initializer, syntactic writers (effects_pkgvars.go)
+	for _, pd := range pds {
+		w.registerPkgVars(pd.files, pd.info, pd.pkg)
+	}
+	for _, pd := range pds {
+		w.scanPkgVarWrites(pd.files, pd.info)
+		w.collectMethodValues(pd.files, pd.info)
 	}
 	sort.Slice(w.order, func(i, j int) bool { return w.order[i].name < w.order[j].name })
 	for i := 1; i < len(w.order); i++ {
@@ -597,6 +637,10 @@ func (a *effA) storage(v *types.Var) eobj {
 	var o eobj
 	if v.Pkg() != nil && v.Parent() == v.Pkg().Scope() {
 		o = eobj{'g', a.w.global(v), 0}
+	} else if a.f.lit != nil && !v.IsField() && (v.Pos() < a.f.lit.Pos() || v.Pos() >= a.f.lit.End()) {
+		// a variable the literal captures from its enclosing function: memory the caller of the literal knows
+		// nothing about — the unknown global (a write to it or through it is charged as a global write)
+		o = eobj{'g', 0, 0}
 	} else {
 		a.nalloc++
 		o = eobj{'a', a.nalloc, 0}
@@ -892,10 +936,14 @@ func (a *effA) staticCall(call *ast.CallExpr, callee *types.Func, args []eset) e
 	if ef == nil {
 		return a.conservative(args, "no-body:"+effFullName(callee))
 	}
+	return a.staticCallFn(call, ef, args)
+}
+
+func (a *effA) staticCallFn(call *ast.CallExpr, ef *effFn, args []eset) eset {
 	key := fmt.Sprintf("%d:%s", a.w.fset.Position(call.Pos()).Offset, ef.name)
 	ed := a.f.edges[key]
 	if ed == nil {
-		ed = &effEdge{callee: callee}
+		ed = &effEdge{callee: ef}
 		a.f.edges[key] = ed
 	}
 	n := len(ef.slots)
@@ -1073,6 +1121,10 @@ func (a *effA) call(call *ast.CallExpr) eset {
 		all.addAll(s)
 	}
 	all.addAll(a.reach(all))
+	// the possible values of the function expression can be enumerated syntactically
+	if tg, how, ok := a.w.fnVals(fvCtx{info, a.f}, fun, 0); ok {
+		return a.fanOut(call, tg, args, exprStr(a.w.fset, fun)+" = "+how)
+	}
 	if _, isSel := fun.(*ast.SelectorExpr); !isSel {
 		// a function value that can only have come in through a parameter (the parameter itself, an
 		// element of a parameter slice of functions): caller-supplied callback, assumed not to write
@@ -1084,6 +1136,10 @@ func (a *effA) call(call *ast.CallExpr) eset {
 			}
 		}
 		if fromParam {
+			// … unless no other package can write a function of that type: then it is one of ours
+			if tg, how, ok := a.w.closedWorld(info.Types[fun].Type); ok {
+				return a.fanOut(call, tg, args, exprStr(a.w.fset, fun)+" = "+how)
+			}
 			for o := range fv {
 				a.f.cbs[fmt.Sprintf("%d", o.i)] = true
 			}
@@ -1119,6 +1175,18 @@ func (a *effA) call(call *ast.CallExpr) eset {
 	return a.conservative(args, "dynamic:"+exprStr(a.w.fset, fun))
 }
 
+// fanOut: a dynamic call whose possible callees were enumerated: like a static call of each of them.
+func (a *effA) fanOut(call *ast.CallExpr, targets []*effFn, args []eset, what string) eset {
+	res := eset{}
+	names := make([]string, len(targets))
+	for i, t := range targets {
+		names[i] = t.name
+		res.addAll(a.staticCallFn(call, t, args))
+	}
+	a.f.res[what+" -> ["+strings.Join(names, ", ")+"]"] = true
+	return res
+}
+
 func pkgPath(f *types.Func) string {
 	if f.Pkg() == nil {
 		return ""
@@ -1132,7 +1200,7 @@ func (w *effWorld) analyse(ef *effFn) bool {
 	oldW, oldE := len(ef.writes), len(ef.edges)
 	oldSum := fmt.Sprint(len(ef.sum.retTop), len(ef.sum.fresh), len(ef.sum.stores))
 	oldEdges := ef.edgeSig()
-	ef.writes, ef.edges, ef.cbs, ef.dyn = eset{}, map[string]*effEdge{}, map[string]bool{}, map[string]bool{}
+	ef.writes, ef.edges, ef.cbs, ef.dyn, ef.res = eset{}, map[string]*effEdge{}, map[string]bool{}, map[string]bool{}, map[string]bool{}
 	for i, v := range ef.slots {
 		if v == nil {
 			continue
@@ -1147,7 +1215,7 @@ func (w *effWorld) analyse(ef *effFn) bool {
 	}
 	a.allRoots[eobj{'g', 0, 1}] = true
 	// named results and closure parameters
-	ast.Inspect(ef.decl.Body, func(n ast.Node) bool {
+	ast.Inspect(ef.body, func(n ast.Node) bool {
 		if fl, ok := n.(*ast.FuncLit); ok {
 			for _, f := range fl.Type.Params.List {
 				for _, nm := range f.Names {
@@ -1160,8 +1228,8 @@ func (w *effWorld) analyse(ef *effFn) bool {
 		return true
 	})
 	var named []*types.Var
-	if ef.decl.Type.Results != nil {
-		for _, f := range ef.decl.Type.Results.List {
+	if ef.ftype.Results != nil {
+		for _, f := range ef.ftype.Results.List {
 			for _, nm := range f.Names {
 				if v, ok := ef.info.Defs[nm].(*types.Var); ok {
 					named = append(named, v)
@@ -1172,7 +1240,7 @@ func (w *effWorld) analyse(ef *effFn) bool {
 	for iter := 0; iter < 100; iter++ {
 		a.changed = false
 		before := len(a.ret)
-		ast.Inspect(ef.decl.Body, func(n ast.Node) bool {
+		ast.Inspect(ef.body, func(n ast.Node) bool {
 			switch x := n.(type) {
 			case *ast.AssignStmt:
 				if len(x.Lhs) == len(x.Rhs) {
@@ -1308,14 +1376,18 @@ func leanNats(xs []int) string {
 }
 
 func (w *effWorld) render() (string, error) {
-	index := map[*types.Func]int{}
+	index := map[*effFn]int{}
 	for i, ef := range w.order {
-		index[ef.fn] = i
+		index[ef] = i
 	}
 	var sb strings.Builder
 	sb.WriteString("/- GENERATED by /verif/extract (effects) from /repo/{utils,dom,diff,patch} — do not edit.\n")
 	sb.WriteString("   Roots: 3*slot+d — slot 0 = receiver, slot i = i-th parameter; d = 0 the object it refers to, 1 = the objects\n")
-	sb.WriteString("   that one holds references to, 2 = anything deeper; 1000+3*g+d the same for package variable g (`globalNames`). -/\n")
+	sb.WriteString("   that one holds references to, 2 = anything deeper; 1000+3*g+d the same for package variable g (`globalNames`;\n")
+	sb.WriteString("   global 0 = memory the analysis knows nothing about: what an unknown callee may write, what a literal captures).\n")
+	sb.WriteString("   `encl$N` is the N-th function literal of declaration `encl`, analysed as a function of its own (it is the\n")
+	sb.WriteString("   callee of dynamic calls the extractor resolved — `resolvedCalls`); `pkgVars`: package-level variables and\n")
+	sb.WriteString("   their syntactic writers. -/\n")
 	sb.WriteString("import YtkModel.EffectTypes\n\nnamespace Ytk.Generated\nopen Ytk.EffectT\n\n")
 	sb.WriteString("def globalNames : List String := [")
 	for i, g := range w.gnames {
@@ -1382,39 +1454,66 @@ func (w *effWorld) render() (string, error) {
 			}
 			return "[" + strings.Join(ps, ", ") + "]"
 		}
-		fmt.Fprintf(&sb, "    callbacks := %s, conservative := %s }", q(cbs), q(dyn))
+		var unk []string
+		for _, d := range dyn {
+			if !strings.HasPrefix(d, "shallow:") {
+				unk = append(unk, d)
+			}
+		}
+		res := make([]string, 0, len(ef.res))
+		for k := range ef.res {
+			res = append(res, k)
+		}
+		sort.Strings(res)
+		fmt.Fprintf(&sb, "    callbacks := %s, conservative := %s,\n    unknownCalls := %s, resolvedCalls := %s }", q(cbs), q(dyn), q(unk), q(res))
 		if i < len(w.order)-1 {
 			sb.WriteString(",")
 		}
 		sb.WriteString("\n")
 	}
 	sb.WriteString("]\n\n")
+	// package-level variables
+	sb.WriteString(w.renderPkgVars(index))
 	// read API
 	dom := w.pkgs[effModule+"dom"]
+	implEntries := func(api [][2]string) ([]string, error) {
+		var entries []string
+		for _, im := range api {
+			tn, ok := dom.Scope().Lookup(im[0]).(*types.TypeName)
+			if !ok {
+				return nil, fmt.Errorf("interface dom.%s not found", im[0])
+			}
+			iface, ok := tn.Type().Underlying().(*types.Interface)
+			if !ok {
+				return nil, fmt.Errorf("dom.%s is not an interface", im[0])
+			}
+			a := &effA{w: w}
+			impls := a.implementations(iface, im[1])
+			if len(impls) == 0 {
+				return nil, fmt.Errorf("no implementation of dom.%s.%s", im[0], im[1])
+			}
+			for _, f := range impls {
+				i, ok := index[w.fns[f]]
+				if !ok || w.fns[f] == nil {
+					return nil, fmt.Errorf("implementation %s of dom.%s.%s has no body", effFullName(f), im[0], im[1])
+				}
+				entries = append(entries, fmt.Sprintf("  (%s, %d)", leanStr(im[0]+"."+im[1]), i))
+			}
+		}
+		return entries, nil
+	}
+	aux, err := implEntries(effAuxAPI)
+	if err != nil {
+		return "", err
+	}
+	sb.WriteString("/-- (interface.method, implementing function) of the non-mutating builder methods the property also speaks\n")
+	sb.WriteString("    about (they are not methods of the read interfaces, so they are kept apart from `readApi`) -/\n")
+	sb.WriteString("def auxApi : List (String × Nat) := [\n" + strings.Join(aux, ",\n") + "\n]\n\n")
 	sb.WriteString("/-- (interface.method, implementing function) for the read API of DESIGN §6 C20 -/\n")
 	sb.WriteString("def readApi : List (String × Nat) := [\n")
-	var entries []string
-	for _, im := range effReadAPI {
-		tn, ok := dom.Scope().Lookup(im[0]).(*types.TypeName)
-		if !ok {
-			return "", fmt.Errorf("interface dom.%s not found", im[0])
-		}
-		iface, ok := tn.Type().Underlying().(*types.Interface)
-		if !ok {
-			return "", fmt.Errorf("dom.%s is not an interface", im[0])
-		}
-		a := &effA{w: w}
-		impls := a.implementations(iface, im[1])
-		if len(impls) == 0 {
-			return "", fmt.Errorf("no implementation of dom.%s.%s", im[0], im[1])
-		}
-		for _, f := range impls {
-			i, ok := index[f]
-			if !ok {
-				return "", fmt.Errorf("implementation %s of dom.%s.%s has no body", effFullName(f), im[0], im[1])
-			}
-			entries = append(entries, fmt.Sprintf("  (%s, %d)", leanStr(im[0]+"."+im[1]), i))
-		}
+	entries, err := implEntries(effReadAPI)
+	if err != nil {
+		return "", err
 	}
 	for _, n := range effReadExtra {
 		found := false
